@@ -17,7 +17,13 @@
    (4) optimize_total_nfo (same side condition), from the stronger optimize_nfo_stable.
    (5) optimize_wf3: the output of the first pass satisfies wf3; generate_wf3, generate_second_pass_id,
        generate_second_pass_total: on well-formed JSON samples (distinct keys) the result of `generate` is a fixpoint
-       of optimize_fields for every comparator and every fuel. *)
+       of optimize_fields for every comparator and every fuel.
+
+   D32 repair of regroup (the work-list is flat_map members_deep ts): members_deep_id, members_deep_no_opt_union,
+   flat_map_members_deep_id, regroup_deep (regroup in general), regroup_perm_deep, regroup_opt_union, WOU.  Every theorem
+   above keeps its statement; the internal lemmas regroup_noopt, regroup_perm, regroup_single, regroup_opt and WO get one
+   more premise (no union member / is_union = false), see regroup_noopt_old_refuted, and `stable` a fourth component
+   (Optional[x] as the only member of a dunion). *)
 From Coq Require Import List Bool Arith NArith Lia.
 From J2M.Model Require Import Base Union Merge Optimize Detect.
 From J2M.Sem Require Import NF.
@@ -721,6 +727,29 @@ Section Opt.
       unfold is_other. cbn. destruct (pmem p registry); rewrite (IH _ _ _ _ _ H'); cbn; rewrite <- ?app_assoc; reflexivity.
   Qed.
 
+  (* the work-list of regroup (D32 repair): members_deep never returns an Optional or a union, and is the identity
+     on a list without Optional / union members *)
+  Lemma members_deep_union us : members_deep (TUnion us) = flat_map members_deep us.
+  Proof. simpl. induction us as [|x r IH]; [reflexivity|]. simpl. rewrite IH. reflexivity. Qed.
+  Lemma members_deep_id t : is_opt t = false -> is_union t = false -> members_deep t = [t].
+  Proof. destruct t; simpl; intros O U; try reflexivity; discriminate. Qed.
+  Lemma members_deep_no_opt_union : forall t x, In x (members_deep t) -> is_opt x = false /\ is_union x = false.
+  Proof.
+    induction t using ty_ind2; intros x Hx; try (destruct Hx as [<-|[]]; split; reflexivity).
+    - destruct Hx as [<-|Hx]; [split; reflexivity | apply IHt; exact Hx].
+    - rewrite members_deep_union in Hx. induction H as [|y r Hy Hr IH]; [destruct Hx|].
+      simpl in Hx. apply in_app_iff in Hx. destruct Hx as [Hx|Hx]; [apply Hy; exact Hx | apply IH; exact Hx].
+  Qed.
+  Lemma flat_map_members_deep_id ts :
+    (forall x, In x ts -> is_opt x = false) -> (forall x, In x ts -> is_union x = false) -> flat_map members_deep ts = ts.
+  Proof.
+    induction ts as [|a r IH]; intros O U; [reflexivity|]. cbn [flat_map].
+    rewrite (members_deep_id a (O a (or_introl eq_refl)) (U a (or_introl eq_refl))), IH; [reflexivity| |];
+      intros x Hx; [apply O | apply U]; right; exact Hx.
+  Qed.
+  Lemma flat_map_members_deep_noopt ts x : In x (flat_map members_deep ts) -> is_opt x = false /\ is_union x = false.
+  Proof. intros H. apply in_flat_map in H. destruct H as [t [_ H]]. apply (members_deep_no_opt_union t x H). Qed.
+
   Definition oth_of (ts : list ty) : list ty :=
     let oth := filter is_other ts in
     if existsb (ty_eqb TInt) oth && existsb (ty_eqb TFloat) oth then remove_first (ty_eqb TInt) oth else oth.
@@ -728,11 +757,19 @@ Section Opt.
   Definition listp (ts : list ty) : list ty := match lists_of ts with [] => [] | _ => [TList (dunion (lists_of ts))] end.
   Definition dictp (ts : list ty) : list ty := match dicts_of ts with [] => [] | _ => [TDict (dunion (dicts_of ts))] end.
 
-  Lemma regroup_noopt ts : (forall x, In x ts -> is_opt x = false) ->
-    regroup ts = (((oth_of ts ++ objp ts) ++ listp ts) ++ dictp ts) ++ str_result replaces (filter (in_reg registry) ts).
+  (* regroup in general: the category split of the deep work-list *)
+  Lemma regroup_deep ts ms : flat_map members_deep ts = ms ->
+    regroup ts = (((oth_of ms ++ objp ms) ++ listp ms) ++ dictp ms) ++ str_result replaces (filter (in_reg registry) ms).
   Proof.
-    intros H. unfold Optimize.regroup. rewrite (split_noopt ts [] [] [] [] [] H). cbn [app]. reflexivity.
+    intros E. unfold Optimize.regroup. rewrite E.
+    rewrite (split_noopt ms [] [] [] [] []) by (intros x Hx; rewrite <- E in Hx; apply (flat_map_members_deep_noopt ts x Hx)).
+    cbn [app]. reflexivity.
   Qed.
+  (* STATEMENT CHANGED (D32 repair of regroup): the second premise (no union member) is new; without it the old
+     statement is false, see regroup_noopt_old_refuted below *)
+  Lemma regroup_noopt ts : (forall x, In x ts -> is_opt x = false) -> (forall x, In x ts -> is_union x = false) ->
+    regroup ts = (((oth_of ts ++ objp ts) ++ listp ts) ++ dictp ts) ++ str_result replaces (filter (in_reg registry) ts).
+  Proof. intros H U. apply regroup_deep. apply flat_map_members_deep_id; assumption. Qed.
 
   (* ---------------------------------------------------------------- *)
   (* 8. str_result, rank sorting, skeleton transfer                    *)
@@ -1281,6 +1318,20 @@ Section Opt.
   Qed.
 End Opt.
 
+(* The old statement of regroup_noopt (premise: no Optional member, only) is false since the D32 repair of regroup: a union
+   member is now spliced into the work-list.  (The same example refutes the old regroup_perm / regroup_single, and
+   regroup_opt_old_refuted the old regroup_opt, whose only premise was is_opt y = false.) *)
+Example regroup_noopt_old_refuted :
+  let ts := [TUnion [TInt]] in
+  forallb (fun x => negb (is_opt x)) ts = true /\
+  regroup [] [] N.eqb ts = [TInt] /\
+  (((oth_of [] ts ++ objp N.eqb ts) ++ listp ts) ++ dictp ts) ++ str_result [] (filter (in_reg []) ts) = [TUnion [TInt]].
+Proof. vm_compute. auto. Qed.
+Example regroup_opt_old_refuted :
+  let y := TUnion [TInt; TBool] in
+  is_opt y = false /\ regroup [] [] N.eqb [TOpt y] = [TNull; TInt; TBool].
+Proof. vm_compute. auto. Qed.
+
 (* ------------------------------------------------------------------ *)
 (* 13. From the raw invariant of Sem/NF.v (plus two decidable side conditions) to RF                  *)
 (* side condition 1: Optional only on top of a field (of a field of a field ...) *)
@@ -1692,16 +1743,22 @@ Section Second.
     - symmetry. apply map_id_In. intros x Hx. apply filter_In in Hx. destruct Hx as [_ Hx]. destruct x; try reflexivity; discriminate.
   Qed.
 
+  Lemma regroup_perm_deep ts ms : flat_map members_deep ts = ms ->
+    existsb (ty_eqb TInt) ms && existsb (ty_eqb TFloat) ms = false ->
+    count is_obj ms <= 1 -> count is_list ms <= 1 -> count is_dict ms <= 1 -> count (in_reg registry) ms <= 1 ->
+    regroup ts = map wrap (perm_of ms).
+  Proof.
+    intros H0 H1 H2 H3 H4 H5. rewrite (regroup_deep registry replaces peq ts ms H0).
+    rewrite (oth_of_id ms H1), (objp_eq ms H2), (listp_eq ms H3), (dictp_eq ms H4), (strp_eq ms H5).
+    unfold perm_of. rewrite !map_app, <- !app_assoc. reflexivity.
+  Qed.
+  (* STATEMENT CHANGED (D32 repair of regroup): the premise on union members is new *)
   Lemma regroup_perm ts :
-    (forall x, In x ts -> is_opt x = false) ->
+    (forall x, In x ts -> is_opt x = false) -> (forall x, In x ts -> is_union x = false) ->
     existsb (ty_eqb TInt) ts && existsb (ty_eqb TFloat) ts = false ->
     count is_obj ts <= 1 -> count is_list ts <= 1 -> count is_dict ts <= 1 -> count (in_reg registry) ts <= 1 ->
     regroup ts = map wrap (perm_of ts).
-  Proof.
-    intros H0 H1 H2 H3 H4 H5. rewrite (regroup_noopt registry replaces peq ts H0).
-    rewrite (oth_of_id ts H1), (objp_eq ts H2), (listp_eq ts H3), (dictp_eq ts H4), (strp_eq ts H5).
-    unfold perm_of. rewrite !map_app, <- !app_assoc. reflexivity.
-  Qed.
+  Proof. intros H0 U. apply regroup_perm_deep. apply flat_map_members_deep_id; assumption. Qed.
 
   (* ---------------------------------------------------------------- *)
   (* 18. one pass over a normal-form union                              *)
@@ -1779,7 +1836,7 @@ Section Second.
   Proof.
     intros U S LW HW. destruct (union_ok_parts ts U) as [P1 [P2 [P3 [P4 [P5 [P6 [P7 [P8 [P9 [P10 P11]]]]]]]]]].
     destruct (mk_union_perm ts U S LW) as [M1 [_ M3]].
-    rewrite optimize_S, regroup_perm; try assumption; [|intros x Hx; apply P2; exact Hx].
+    rewrite optimize_S, regroup_perm; try assumption; [| intros x Hx; apply P2; exact Hx | intros x Hx; apply P2; exact Hx].
     rewrite opt_list_map_id by (intros x Hx; apply HW; apply perm_of_In; exact Hx).
     rewrite finish_2 by lia.
     assert (T1 : fin_T1 (perm_of ts) = perm_of ts).
@@ -1796,20 +1853,23 @@ Section Second.
   (* 19. singleton unions built by dunion, and the stability theorem    *)
   Lemma perm_single x : perm_of [x] = [x].
   Proof. unfold perm_of, is_other. destruct x; simpl; try reflexivity. destruct (pmem p registry); reflexivity. Qed.
-  Lemma regroup_single x : is_opt x = false -> regroup [x] = [wrap x].
+  (* STATEMENT CHANGED (D32 repair of regroup): the premise is_union x = false is new *)
+  Lemma regroup_single x : is_opt x = false -> is_union x = false -> regroup [x] = [wrap x].
   Proof.
-    intros H. rewrite regroup_perm.
+    intros H U. rewrite regroup_perm.
     - rewrite perm_single. reflexivity.
     - intros y [<-|[]]. exact H.
+    - intros y [<-|[]]. exact U.
     - destruct x; reflexivity.
     - apply (count_le_length is_obj [x]).
     - apply (count_le_length is_list [x]).
     - apply (count_le_length is_dict [x]).
     - apply (count_le_length (in_reg registry) [x]).
   Qed.
-  Lemma regroup_opt y : is_opt y = false -> regroup [TOpt y] = [TNull; wrap y].
+  (* STATEMENT CHANGED (D32 repair of regroup): the premise is_union y = false is new; for a union see regroup_opt_union *)
+  Lemma regroup_opt y : is_opt y = false -> is_union y = false -> regroup [TOpt y] = [TNull; wrap y].
   Proof.
-    intros H. unfold Optimize.regroup. destruct y; try discriminate; try reflexivity.
+    intros H U. unfold Optimize.regroup. destruct y; try discriminate; try reflexivity.
     cbn. destruct (pmem p registry) eqn:E; cbn; [|reflexivity].
     change (flat_map _ [TPseudo p]) with [p]. 
     pose proof (str_result_pseudo p) as SR. unfold str_result in SR. cbn in SR. cbn. rewrite SR. reflexivity.
@@ -1831,14 +1891,17 @@ Section Second.
   Lemma W fuel x : is_opt x = false -> mk_union [x] = [x] -> optimize fuel (wrap x) = Some x ->
     optimize (S fuel) (dunion [x]) = Some x.
   Proof.
-    intros O M H. unfold dunion. rewrite M, optimize_S, (regroup_single x O). simpl. rewrite H. reflexivity.
+    intros O M H.
+    assert (U : is_union x = false) by (apply (mk_union_no_union [x]); rewrite M; left; reflexivity).
+    unfold dunion. rewrite M, optimize_S, (regroup_single x O U). simpl. rewrite H. reflexivity.
   Qed.
-  Lemma WO fuel y : is_opt y = false -> is_null y = false -> union1 [y] = y -> optimize fuel (wrap y) = Some y ->
+  (* STATEMENT CHANGED (D32 repair of regroup): the premise is_union y = false is new; for a union see WOU *)
+  Lemma WO fuel y : is_opt y = false -> is_union y = false -> is_null y = false -> union1 [y] = y -> optimize fuel (wrap y) = Some y ->
     optimize (S fuel) (dunion [TOpt y]) = Some (TOpt y).
   Proof.
-    intros O Nn U1 H.
+    intros O Un Nn U1 H.
     assert (M : mk_union [TOpt y] = [TOpt y]) by reflexivity.
-    unfold dunion. rewrite M, optimize_S, (regroup_opt y O).
+    unfold dunion. rewrite M, optimize_S, (regroup_opt y O Un).
     destruct fuel as [|fuel]; [discriminate H|].
     cbn [opt_list]. rewrite H. change (optimize (S fuel) TNull) with (Some TNull). cbv iota beta.
     rewrite finish_2 by (simpl; lia).
@@ -1847,6 +1910,52 @@ Section Second.
     assert (T2 : fin_T2 [TNull; y] = [y]).
     { unfold fin_T2. rewrite T1. simpl. rewrite Nn. reflexivity. }
     rewrite T1, T2, U1. reflexivity.
+  Qed.
+
+  (* Optional[Union[...]] as the only member of a union built by dunion: the union under the Optional is spliced into
+     the work-list (D32 repair), and rebuilt in place *)
+  Lemma perm_of_null ts : perm_of (TNull :: ts) = TNull :: perm_of ts.
+  Proof. reflexivity. Qed.
+  Lemma regroup_opt_union ts :
+    (forall x, In x ts -> is_opt x = false) -> (forall x, In x ts -> is_union x = false) ->
+    existsb (ty_eqb TInt) ts && existsb (ty_eqb TFloat) ts = false ->
+    count is_obj ts <= 1 -> count is_list ts <= 1 -> count is_dict ts <= 1 -> count (in_reg registry) ts <= 1 ->
+    regroup [TOpt (TUnion ts)] = TNull :: map wrap (perm_of ts).
+  Proof.
+    intros O U H1 H2 H3 H4 H5. rewrite (regroup_perm_deep [TOpt (TUnion ts)] (TNull :: ts)).
+    - rewrite perm_of_null. reflexivity.
+    - cbn [flat_map]. rewrite app_nil_r. change (members_deep (TOpt (TUnion ts))) with (TNull :: members_deep (TUnion ts)).
+      rewrite (members_deep_union ts), (flat_map_members_deep_id ts O U). reflexivity.
+    - exact H1.
+    - rewrite count_cons. exact H2.
+    - rewrite count_cons. exact H3.
+    - rewrite count_cons. exact H4.
+    - rewrite count_cons. exact H5.
+  Qed.
+  Lemma WOU fuel ts : union_ok registry ts = true -> sorted ts = true -> lits_wf_in ts ->
+    (forall x, In x ts -> optimize fuel (wrap x) = Some x) ->
+    optimize (S fuel) (dunion [TOpt (TUnion ts)]) = Some (TOpt (TUnion ts)).
+  Proof.
+    intros U S LW HW. destruct (union_ok_parts ts U) as [P1 [P2 [P3 [P4 [P5 [P6 [P7 [P8 [P9 [P10 P11]]]]]]]]]].
+    destruct (mk_union_perm ts U S LW) as [M1 [_ M3]].
+    assert (M : mk_union [TOpt (TUnion ts)] = [TOpt (TUnion ts)]) by reflexivity.
+    unfold dunion. rewrite M, optimize_S, regroup_opt_union; try assumption;
+      [| intros x Hx; apply P2; exact Hx | intros x Hx; apply P2; exact Hx].
+    assert (F : exists f, fuel = Datatypes.S f).
+    { destruct ts as [|a r]; [simpl in P1; lia|]. specialize (HW a (or_introl eq_refl)).
+      destruct fuel as [|f]; [discriminate HW | exists f; reflexivity]. }
+    destruct F as [f ->].
+    cbn [opt_list]. change (optimize (Datatypes.S f) TNull) with (Some TNull).
+    rewrite opt_list_map_id by (intros x Hx; apply HW; apply perm_of_In; exact Hx).
+    rewrite finish_2 by (simpl; lia).
+    assert (NU : existsb is_unknown (perm_of ts) = false).
+    { apply existsb_false. intros x Hx. apply P11. apply perm_of_In. exact Hx. }
+    assert (T1 : fin_T1 (TNull :: perm_of ts) = TNull :: perm_of ts).
+    { unfold fin_T1. cbn [existsb is_unknown orb]. rewrite NU. reflexivity. }
+    assert (T2 : fin_T2 (TNull :: perm_of ts) = perm_of ts).
+    { unfold fin_T2. rewrite T1. cbn [filter is_null negb]. apply filter_all. intros x Hx. apply negb_true_iff. apply P2. apply perm_of_In. exact Hx. }
+    rewrite T1, T2. cbn [existsb is_null orb].
+    unfold union1. rewrite M1. destruct ts as [|a [|b r]]; simpl in P1; try lia. reflexivity.
   Qed.
 End Second.
 
@@ -1871,7 +1980,8 @@ Section Third.
 
   Definition stable (fuel : nat) (x : ty) : Prop :=
     optimize fuel x = Some x /\ optimize fuel (wrap peq x) = Some x /\
-    (x <> TOpt TNull -> optimize fuel (dunion [x]) = Some x).
+    (x <> TOpt TNull -> optimize fuel (dunion [x]) = Some x) /\
+    (is_opt x = false -> is_null x = false -> optimize fuel (dunion [TOpt x]) = Some (TOpt x)).
   Definition Q (x : ty) : Prop := exists n, forall fuel, n <= fuel -> stable fuel x.
 
   Lemma lit_facts o l : nfo (TLit o l) = true -> wf3 (TLit o l) = true -> o = false /\ lit_wf l.
@@ -1923,8 +2033,9 @@ Section Third.
     (forall fuel, optimize (S fuel) x = Some x) -> nfo x = true -> wf3 x = true -> Q x.
   Proof.
     intros O U Wr HS Hn Hw. exists 2. intros fuel Hf. destruct fuel as [|[|f]]; try lia.
-    split; [apply HS|]. split; [rewrite Wr; apply HS|]. intros _.
-    apply W; [exact O | apply (mk_union_single' x Hn Hw U) | rewrite Wr; apply HS].
+    split; [apply HS|]. split; [rewrite Wr; apply HS|]. split.
+    - intros _. apply W; [exact O | apply (mk_union_single' x Hn Hw U) | rewrite Wr; apply HS].
+    - intros _ Nn. apply WO; [exact O | exact U | exact Nn | apply (union1_single x Hn Hw O) | rewrite Wr; apply HS].
   Qed.
 
   Theorem stable_all : forall x, nfo x = true -> wf3 x = true -> Q x.
@@ -1941,8 +2052,8 @@ Section Third.
       exists (S (S n)). intros fuel Hf. destruct fuel as [|f]; [lia|]. destruct (Hq f ltac:(lia)) as [S1 [S2 _]].
       assert (E : optimize (S f) (TOpt x) = Some (TOpt x)).
       { rewrite optimize_S, S1. destruct x; try reflexivity. discriminate O. }
-      split; [exact E|]. split; [exact E|]. intros Hne.
-      apply WO; [exact O | destruct x; try reflexivity; congruence | apply (union1_single x Hy Hw O) | exact S2].
+      split; [exact E|]. split; [exact E|]. split; [|discriminate]. intros Hne.
+      destruct (Hq (S f) ltac:(lia)) as [_ [_ [_ S4]]]. apply S4; [exact O | destruct x; try reflexivity; congruence].
     - (* TList *)
       assert (Hz : nfo x = true) by exact Hn. simpl in Hw. apply andb_true_iff in Hw. destruct Hw as [Hne Hw].
       assert (Hne' : x <> TOpt TNull).
@@ -1952,9 +2063,10 @@ Section Third.
       assert (E1 : forall f', n <= f' -> optimize (S f') (TList x) = Some (TList x)).
       { intros f' Hf'. rewrite optimize_S. destruct (Hq f' Hf') as [S1 _]. rewrite S1. reflexivity. }
       assert (E2 : forall f', n <= f' -> optimize (S f') (wrap peq (TList x)) = Some (TList x)).
-      { intros f' Hf'. cbn [wrap]. rewrite optimize_S. destruct (Hq f' Hf') as [_ [_ S3]]. rewrite (S3 Hne'). reflexivity. }
-      split; [apply E1; lia|]. split; [apply E2; lia|]. intros _.
-      apply W; [reflexivity | apply mk_union_single'; [exact Hn | simpl; rewrite Hne, Hw; reflexivity | reflexivity] | apply E2; lia].
+      { intros f' Hf'. cbn [wrap]. rewrite optimize_S. destruct (Hq f' Hf') as [_ [_ [S3 _]]]. rewrite (S3 Hne'). reflexivity. }
+      split; [apply E1; lia|]. split; [apply E2; lia|]. split.
+      + intros _. apply W; [reflexivity | apply mk_union_single'; [exact Hn | simpl; rewrite Hne, Hw; reflexivity | reflexivity] | apply E2; lia].
+      + intros _ _. apply WO; [reflexivity | reflexivity | reflexivity | apply union1_single; [exact Hn | simpl; rewrite Hne, Hw; reflexivity | reflexivity] | apply E2; lia].
     - (* TDict *)
       assert (Hz : nfo x = true) by exact Hn. simpl in Hw. apply andb_true_iff in Hw. destruct Hw as [Hne Hw].
       assert (Hne' : x <> TOpt TNull).
@@ -1964,17 +2076,19 @@ Section Third.
       assert (E1 : forall f', n <= f' -> optimize (S f') (TDict x) = Some (TDict x)).
       { intros f' Hf'. rewrite optimize_S. destruct (Hq f' Hf') as [S1 _]. rewrite S1. reflexivity. }
       assert (E2 : forall f', n <= f' -> optimize (S f') (wrap peq (TDict x)) = Some (TDict x)).
-      { intros f' Hf'. cbn [wrap]. rewrite optimize_S. destruct (Hq f' Hf') as [_ [_ S3]]. rewrite (S3 Hne'). reflexivity. }
-      split; [apply E1; lia|]. split; [apply E2; lia|]. intros _.
-      apply W; [reflexivity | apply mk_union_single'; [exact Hn | simpl; rewrite Hne, Hw; reflexivity | reflexivity] | apply E2; lia].
+      { intros f' Hf'. cbn [wrap]. rewrite optimize_S. destruct (Hq f' Hf') as [_ [_ [S3 _]]]. rewrite (S3 Hne'). reflexivity. }
+      split; [apply E1; lia|]. split; [apply E2; lia|]. split.
+      + intros _. apply W; [reflexivity | apply mk_union_single'; [exact Hn | simpl; rewrite Hne, Hw; reflexivity | reflexivity] | apply E2; lia].
+      + intros _ _. apply WO; [reflexivity | reflexivity | reflexivity | apply union1_single; [exact Hn | simpl; rewrite Hne, Hw; reflexivity | reflexivity] | apply E2; lia].
     - (* TUnion *)
       destruct (nfo_union_parts ts Hn Hw) as [A [B [C D]]].
       destruct (Q_bound (fun t => t) ts H D) as [n Hq].
       exists (S n). intros fuel Hf. destruct fuel as [|f]; [lia|].
       assert (E : optimize (S f) (TUnion ts) = Some (TUnion ts)).
       { apply union_pass; try assumption. intros y Hy. apply (Hq f ltac:(lia) y Hy). }
-      split; [exact E|]. split; [exact E|]. intros _.
-      unfold dunion. rewrite mk_union_wrapU. destruct (mk_union_perm registry ts A B C) as [_ [M _]]. rewrite M. exact E.
+      split; [exact E|]. split; [exact E|]. split.
+      + intros _. unfold dunion. rewrite mk_union_wrapU. destruct (mk_union_perm registry ts A B C) as [_ [M _]]. rewrite M. exact E.
+      + intros _ _. apply WOU; try assumption. intros y Hy. apply (Hq f ltac:(lia) y Hy).
     - (* TObj *)
       assert (D : forall kv, In kv fs -> nfo (snd kv) = true /\ wf3 (snd kv) = true).
       { apply nfo_iff in Hn. destruct Hn as [N O]. rewrite nf_obj in N. rewrite ordered_obj in O. simpl in Hw.
@@ -1987,8 +2101,9 @@ Section Third.
       { intros f' Hf'. rewrite optimize_S, opt_fields_id; [reflexivity|]. intros kv Hkv. apply (Hq f' Hf' kv Hkv). }
       assert (E2 : forall f', n <= f' -> optimize (S f') (wrap peq (TObj fs)) = Some (TObj fs)).
       { intros f' Hf'. cbn [wrap]. pose proof (merge_single peq fs K) as MS. unfold fields in *. rewrite MS. apply E1. exact Hf'. }
-      split; [apply E1; lia|]. split; [apply E2; lia|]. intros _.
-      apply W; [reflexivity | apply mk_union_single'; [exact Hn | exact Hw | reflexivity] | apply E2; lia].
+      split; [apply E1; lia|]. split; [apply E2; lia|]. split.
+      + intros _. apply W; [reflexivity | apply mk_union_single'; [exact Hn | exact Hw | reflexivity] | apply E2; lia].
+      + intros _ _. apply WO; [reflexivity | reflexivity | reflexivity | apply union1_single; [exact Hn | exact Hw | reflexivity] | apply E2; lia].
   Qed.
 End Third.
 
